@@ -70,7 +70,7 @@ var (
 	addrX = sk.XAddr(0xd4)
 )
 
-const nFund = 20
+const nFund = 24
 
 func ins(id common.Uint256, idx ...uint16) []*common2.Input {
 	var out []*common2.Input
@@ -90,7 +90,7 @@ func menu(genesisCoinbase common.Uint256) *menuT {
 	for i := 0; i < nFund; i++ {
 		to := addrA
 		switch {
-		case i == 16 || i == 17:
+		case i == 16 || i == 17 || i == 21:
 			to = addrB
 		case i == 18:
 			to = addrC
@@ -134,13 +134,19 @@ func menu(genesisCoinbase common.Uint256) *menuT {
 	add(&op{name: "rev2", txs: []interfaces.Transaction{sk.Review(10, ins(f, 4), outs(sk.Out(addrA, 1000)), prop.Hash(), 2, opinion)}, needs: []string{"prop"}})
 	add(&op{name: "trk1", txs: []interfaces.Transaction{sk.Tracking(11, ins(f, 5), outs(sk.Out(addrA, 1000)), prop.Hash(), msg1, sgOpinion)}, needs: []string{"prop"}})
 	add(&op{name: "trk2", txs: []interfaces.Transaction{sk.Tracking(12, ins(f, 6), outs(sk.Out(addrA, 1000)), prop.Hash(), msg2, sgOpinion)}, needs: []string{"prop"}})
+	// legacy payload versions (0x00): the save processors still record the hash, with no data
+	prop0 := sk.WithPayloadVersion(sk.Proposal(40, ins(f, 14), outs(sk.Out(addrA, 1000)), []byte("legacy draft")), payload.CRCProposalVersion)
+	add(&op{name: "prop0", txs: []interfaces.Transaction{prop0}})
+	add(&op{name: "rev0", txs: []interfaces.Transaction{sk.WithPayloadVersion(sk.Review(41, ins(f, 9), outs(sk.Out(addrA, 1000)), prop.Hash(), 3, []byte("legacy opinion")), payload.CRCProposalReviewVersion)}, needs: []string{"prop"}})
+	add(&op{name: "trk0", txs: []interfaces.Transaction{sk.WithPayloadVersion(sk.Tracking(42, ins(f, 16), outs(sk.Out(addrB, 1000)), prop.Hash(), []byte("legacy message"), []byte("legacy sg opinion")), payload.CRCProposalTrackingVersion)}, needs: []string{"prop"}})
+	// a transaction with more than 256 outputs and a spend of outputs 7 and 263
+	big := sk.FanOut(43, ins(f, 12), addrB, 300, 3)
+	add(&op{name: "big300", txs: []interfaces.Transaction{big}})
+	add(&op{name: "bigspend", txs: []interfaces.Transaction{sk.Transfer(44, ins(big.Hash(), 7, 263), outs(sk.Out(addrC, 6)))}, needs: []string{"big300"}})
 	add(&op{name: "regp", txs: []interfaces.Transaction{sk.RegisterProducer(13, ins(f, 8), outs(sk.Out(addrB, 1000)))}})
-	add(&op{name: "regcr", txs: []interfaces.Transaction{sk.RegisterCR(14, ins(f, 9), outs(sk.Out(addrB, 1000)))}})
-	// several transfers in one block, in both directions among the addresses, all spending
-	// outputs of earlier blocks
 	add(&op{name: "multi2", txs: []interfaces.Transaction{
-		sk.Transfer(30, ins(f, 12), outs(sk.Out(addrB, 1000))),
-		sk.Transfer(31, ins(f, 16), outs(sk.Out(addrA, 1000)))}})
+		sk.Transfer(30, ins(f, 20), outs(sk.Out(addrB, 1000))),
+		sk.Transfer(31, ins(f, 21), outs(sk.Out(addrA, 1000)))}})
 	add(&op{name: "multi3", txs: []interfaces.Transaction{
 		sk.Transfer(32, ins(f, 13), outs(sk.Out(addrB, 600), sk.Out(addrC, 400))),
 		sk.Transfer(33, ins(f, 17), outs(sk.Out(addrC, 1000))),
@@ -151,7 +157,8 @@ func menu(genesisCoinbase common.Uint256) *menuT {
 	m.addrs = []common.Uint168{addrA, addrB, addrC, addrX, sk.MinerAddr}
 	m.sideH = []common.Uint256{hSide, hSide2}
 	m.depH = []common.Uint256{hDep, hDep2, hDep3}
-	m.drafts = []common.Uint256{common.Hash(draft), common.Hash(opinion), common.Hash(sgOpinion), common.Hash(msg1), common.Hash(msg2)}
+	m.drafts = []common.Uint256{common.Hash(draft), common.Hash(opinion), common.Hash(sgOpinion), common.Hash(msg1), common.Hash(msg2),
+		common.Hash([]byte("legacy draft")), common.Hash([]byte("legacy opinion")), common.Hash([]byte("legacy message")), common.Hash([]byte("legacy sg opinion"))}
 	m.txids = []common.Uint256{genesisCoinbase, f}
 	for _, o := range m.ops {
 		for _, t := range o.txs {
@@ -166,7 +173,7 @@ func (m *menuT) enabled(path []string, name string) bool {
 	for _, p := range path {
 		on[p] = true
 	}
-	if name != "empty" && on[name] {
+	if on[name] {
 		return false
 	}
 	o := m.by[name]
